@@ -160,6 +160,13 @@ def attribute_chain(case, pid: int, firings: list[int]) -> list[tuple[int, int]]
         bo.close()
     if not occ:
         return None
+    if k == 'jitter':
+        # the windows of two occurrences that are closer than the window is wide overlap (a time of day shown twice on
+        # the day the clock goes back, dense groups): a firing cannot be attributed, the property is about shifts that
+        # are narrower than the distance of the occurrences
+        so = sorted(occ)
+        if any(b - a <= spec[2] - spec[1] for a, b in zip(so, so[1:])):
+            return None
     out = []
     for r in firings:
         target = r - spec[1] if k == 'offset' else r - (spec[1] + spec[2]) // 2
